@@ -132,7 +132,7 @@ class NsConcWorld(World):
             "Pyro5.nameserver.SqlStorage over a real sqlite file (each storage call one scheduling atom)", "Pyro5.core.URI"]
     STUB = ["threading.RLock (simulated, baton scheduler)", "client threads call NameServer methods directly (no wire)"]
     PROBES = ["overlap", "preempted", "safe_register_conflict", "remove_conflict", "naming_error", "sql_storage",
-              "list_during_mutation"]
+              "list_during_mutation", "stalled", "commtimeout"]
     RULE = ("plan = (storage, initial registrations, 2-4 threads x 1-2 operations on names with a common prefix, "
             "pre-emption probabilities); distinct = distinct interleaving digest; non-trivial = at least two operations "
             "overlapped in time and at least one scheduling choice deviated from run-to-block")
@@ -250,8 +250,21 @@ class NsConcWorld(World):
     def line_codes(self, plan):
         return _codes(plan["storage"])
 
+    def make_plan(self, run_seed, tier):
+        plan = super().make_plan(run_seed, tier)
+        # configuration swarm: a communication timeout is configured in some deployments (it must not matter for the name
+        # server's own locking), and threads can be slow inside an operation (injected stalls, virtual seconds)
+        import random
+        r = random.Random(run_seed ^ 0xC15)
+        plan["commtimeout"] = r.choice([0.0, 0.0, 0.2])
+        if plan["sched"].get("mode") == "random":
+            plan["sched"]["p_stall"] = r.choice([0.0, 0.0, 0.02, 0.05])
+        return plan
+
     def scenario(self, ctx):
         plan, sched = ctx.plan, ctx.sched
+        from ..seams import config
+        config.COMMTIMEOUT = plan.get("commtimeout", 0.0)
         tmp = None
         if plan["storage"] == "sql":
             ctx.probe("sql_storage")
@@ -288,7 +301,7 @@ class NsConcWorld(World):
             for t in ths:
                 t.start()
             for t in ths:
-                t.join(60.0)
+                t.join(600.0)
             if any(sched.sim_thread_of(t).state != "done" for t in ths):
                 ctx.violate("operation-hung", "", "a name server operation did not return within 60 virtual seconds")
                 return
@@ -301,6 +314,11 @@ class NsConcWorld(World):
                 ctx.probe("overlap")
             if sched.preempts:
                 ctx.probe("preempted")
+            if sched.stalls:
+                ctx.probe("stalled")
+                ctx.fault("thread_stall", sched.stalls)
+            if plan.get("commtimeout"):
+                ctx.probe("commtimeout")
             ctx.nontrivial = overlap and bool(sched.choices)
             if internal:
                 seen = set()
